@@ -810,7 +810,18 @@ func (j *jerrOnly) callOK(cs callSite, call *ast.CallExpr, depth int) (bool, str
 			}
 			lit, ok := ast.Unparen(call.Args[fi]).(*ast.FuncLit)
 			if !ok {
-				return false, "iterator callback is not a function literal"
+				// a named function or a method value as the callback
+				var cb *types.Func
+				switch a := ast.Unparen(call.Args[fi]).(type) {
+				case *ast.Ident:
+					cb, _ = info.ObjectOf(a).(*types.Func)
+				case *ast.SelectorExpr:
+					cb, _ = info.ObjectOf(a.Sel).(*types.Func)
+				}
+				if cbd := c.P.Decl(cb); cbd != nil {
+					return j.bodyOK(callSite{Pk: c.P.PkgOfDecl(cbd), Decl: cbd, Body: cbd.Body}, cbd.Body, depth+1)
+				}
+				return false, "iterator callback is neither a function literal nor a named function of the repository"
 			}
 			return j.bodyOK(callSite{Pk: cs.Pk, Decl: cs.Decl, Body: lit.Body, Lit: lit}, lit.Body, depth+1)
 		}
